@@ -132,6 +132,7 @@ Proof.
   - inv_args Hvs. destruct x as [v|t]; [|fin]. cbn in Hh. apply has_type_prim_inv in Hh. destruct Hh as (b & ->).
     destruct x0 as [v0|t0]; [|fin]. cbn in Hh0. apply has_type_prim_inv in Hh0. destruct Hh0 as (b0 & ->). fin.
   - inv_args Hvs. destruct x as [v|t]; [|fin]. cbn in Hh. apply has_type_prim_inv in Hh. destruct Hh as (b & ->). fin.
+  - eexists; split; [reflexivity|]. reflexivity.
   - (* boom is excluded *)
     exfalso. apply Hnb.
     match goal with E : bytes_eqb name _ = true |- _ => revert E end. clear.
